@@ -19,13 +19,32 @@ static const struct { const char * p; size_t n; } msgs[] = {
     MSG("OPT 5  \n"), MSG("DBL? 1.5e3\n"), MSG("*XY?;:AAAA:Cc12\n"), MSG("Q1?\r"),
     MSG("IB 7,#15a\n;b\n\n"),                       /* block with embedded NL and ; as SECOND parameter */
     MSG("BLK #16\x01\x00\x02\x00\n\x00\n"),     /* NUL bytes (and a NL) inside a block */
+    MSG("TXT 'abc'\n"), MSG("TXT 'ab\n"),        /* single-quoted string, and one whose closing quote is missing */
 };
 #define NMSG ((int) (sizeof msgs / sizeof msgs[0]))
 #define M_QUOTED_NL 4
+/* Known finding "line terminator inside a quoted string" (section 8.4): applies to a stream in which a line terminator lies
+ * between an opening quote and a LATER quote of the same kind.  A quote that is never closed does not qualify: the string
+ * then ends with the data, whatever the chunking. */
+static int quoted_terminator(const char * s, int n) {
+    int i, j;
+    char open = 0;
+    for (i = 0; i < n; i++) {
+        if (!open) { if (s[i] == '"' || s[i] == '\'') open = s[i]; }
+        else if (s[i] == open) open = 0;
+        else if (s[i] == '\n' || s[i] == '\r') {
+            for (j = i + 1; j < n; j++) if (s[j] == open) return 1;
+            open = 0;
+        }
+    }
+    return 0;
+}
+
 static const char * tails[] = { "", "I2 12,34", "Q1", "TXT \"ab", "BLK #14ab" };
 #define NTAIL ((int) (sizeof tails / sizeof tails[0]))
 
 static tc_t T;
+static int heap_family_only = 0;
 static unsigned long long n_runs = 0, n_streams = 0, n_flushchecks = 0, n_calls = 0;
 
 typedef struct { char tr[4096]; size_t trn; char out[1024]; size_t outn; char rem[300]; size_t remn; char q[1024]; size_t qn; } obs_t;
@@ -129,6 +148,9 @@ int main(int argc, char ** argv) {
     mc_tail_poison = 1;
     tc_init(&T, mt_cmds, 256, 64);
     K = mc_thorough ? 4 : 3;
+#if USE_DEVICE_DEPENDENT_ERROR_INFORMATION && !USE_MEMORY_ALLOCATION_FREE
+    heap_family_only = !mc_thorough;        /* quick, static-heap build: the short streams of the main family and the heap family below */
+#endif
     for (k = 1; k <= K; k++) {
         for (i = 0; i < k; i++) idx[i] = 0;
         for (;;) {
@@ -140,13 +162,36 @@ int main(int argc, char ** argv) {
                 for (i = 0; i < k; i++) { memcpy(s + n, msgs[idx[i]].p, msgs[idx[i]].n); n += (int) msgs[idx[i]].n; if (idx[i] == M_QUOTED_NL) qnl = 1; }
                 n += sprintf(s + n, "%s", tails[t]);
                 mc_case_tag = "stream"; mc_case_s[0] = (const unsigned char *) s; mc_case_n[0] = (size_t) n;
-                check_stream(s, n, qnl);
+                (void) qnl;
+                if (heap_family_only && k > 2) continue;
+                check_stream(s, n, quoted_terminator(s, n));
                 if (k <= 2) check_flush(s, n);
             }
             for (i = k - 1; i >= 0; i--) { if (++idx[i] < NMSG) break; idx[i] = 0; }
             if (i < 0) break;
         }
     }
+#if USE_DEVICE_DEPENDENT_ERROR_INFORMATION && !USE_MEMORY_ALLOCATION_FREE
+    {   /* static-heap build: texts of undefined headers in a 24-byte heap - stored, released by SYST:ERR?, wrapping around
+         * the heap end - while the following message already lies behind the header text in the input buffer or not */
+        static const char * hm[] = {"AAAAAAAAAA\n", "BBBBBBBB\n", "SYST:ERR?\n", "DDDD\n"};
+        int KH = mc_thorough ? 6 : 5;
+        tc_free(&T); tc_heap_len = 24; tc_init(&T, mt_cmds, 256, 8);
+        for (k = 1; k <= KH; k++) {
+            for (i = 0; i < k; i++) idx[i] = 0;
+            for (;;) {
+                if (MC_CASE()) {
+                    int n = 0;
+                    for (i = 0; i < k; i++) n += sprintf(s + n, "%s", hm[idx[i]]);
+                    mc_case_tag = "heap-stream"; mc_case_s[0] = (const unsigned char *) s; mc_case_n[0] = (size_t) n;
+                    check_stream(s, n, 0);
+                }
+                for (i = k - 1; i >= 0; i--) { if (++idx[i] < 4) break; idx[i] = 0; }
+                if (i < 0) break;
+            }
+        }
+    }
+#endif
     if (mc_shard == 0) {
         mc_sample("stream [BLK #15a\\n;bc\\nQ1?\\n] under every partition with <= 2 cuts, every uniform chunk size, all-at-once vs one byte per call");
         mc_sample("stream [Q1?\\n] (4 bytes): all 8 partitions");
